@@ -416,6 +416,10 @@ def _gen_sandwich_plan(S, k, header, queries):
 
 
 POISON_SPOTS = ['first', 'last', 'cterm']
+ANN_RETURNING = {'ann.copy', 'ann.slice', 'ann.shift', 'ann.reverse', 'ann.shuffle_seeded', 'ann.sort_residues',
+                 'ann.strip', 'ann.condense_static_mods', 'apply_static_mods', 'apply_variable_mods',
+                 'create_annotation', 'ann.permutations', 'ann.combinations', 'ann.product',
+                 'ann.combinations_with_replacement'}
 
 
 def _gen_poison_plan(S, k, header, opnames):
@@ -568,6 +572,13 @@ def _gen_random_plan(S, header, tier):
             if po is None:
                 continue
             name, args = po
+            ann_results = [r for r, o_ in W['results'].items() if o_ in ANN_RETURNING]
+            if ann_results and S.coin(0.15):
+                for an in ('sequence', 'self', 'subsequence', 'other'):
+                    if an in args and 'h' in args[an] and 'size' not in args and 'max_mods' not in args \
+                            and an not in OPS[name].exempt:
+                        args[an] = {'ra': S.pick(ann_results), 'i': S.randint(0, 20)}
+                        break
             rh = f'R{nres}'
             nres += 1
             events.append({'act': 'call', 'client': client, 'op': name, 'args': args, 'out': rh,
@@ -657,7 +668,8 @@ class _Run:
         for h, s in snaps.items():
             if h in exempt_handles:
                 continue
-            d = N.same(s, N.norm(self.pool[h]), '')
+            # 'was this very object changed': an emptied container turning into None (or back) counts
+            d = N.same_strict(s, N.norm(self.pool[h]), '')
             if d is not None:
                 kind = self.plan['pool'][h]['kind']
                 if kind == 'nf':
@@ -761,6 +773,18 @@ def _resolve(run, args, twin, twin_cache, snaps):
             out[k] = copy.deepcopy(a['v'])
         elif 'nf' in a:
             out[k] = N.denorm(a['nf'])
+        elif 'ra' in a:
+            # an annotation that an EARLIER CALL RETURNED, passed back in; its private counterpart is an equal object
+            # rebuilt from its dump (not a re-computation): hidden state that the result carries from the call that
+            # produced it has no way into the rebuilt one
+            r = run.results.get(a['ra'])
+            obj = _ann_of(r['val'], a.get('i', 0)) if r is not None else None
+            if obj is None:
+                return None
+            if not twin:
+                out[k] = obj
+            else:
+                out[k] = N.denorm(N.norm_ann(obj))
         elif 'r' in a:
             r = run.results.get(a['r'])
             if r is None:
@@ -784,6 +808,16 @@ def _resolve(run, args, twin, twin_cache, snaps):
 
 class _Skip(Exception):
     pass
+
+
+def _ann_of(val, i):
+    if isinstance(val, pt.ProFormaAnnotation):
+        return val
+    if isinstance(val, (list, tuple)):
+        anns = [v for v in val if isinstance(v, pt.ProFormaAnnotation)]
+        if anns:
+            return anns[i % len(anns)]
+    return None
 
 
 def _twin_of_result(run, r, twin_cache, snaps):
@@ -826,6 +860,9 @@ def _do_call(run, ev_i, ev, touched):
     if sargs is None or targs is None:
         out.record(['skip', ev_i])
         return False
+    ra_before = {an: (sargs[an], N.norm_ann(sargs[an])) for an, a in ev['args'].items() if 'ra' in a}
+    if ra_before:
+        out.probes['earlier_result_passed_back_in'] += 1
     if len(set(a['h'] for a in ev['args'].values() if 'h' in a)) < len([a for a in ev['args'].values() if 'h' in a]):
         out.faults['reuse'] += 1
 
@@ -896,6 +933,14 @@ def _do_call(run, ev_i, ev, touched):
     exempt = [ev['args'][an]['h'] for an in o.exempt if an in ev['args'] and 'h' in ev['args'][an]]
     if run.check_pool(snaps, 'ARG', ev['op'], ev_i, exempt):
         return True
+    for an, (obj, nf0) in ra_before.items():
+        if an in o.exempt:
+            continue
+        d = N.same(nf0, N.norm_ann(obj))
+        if d is not None:
+            if run.violation('ARG', ev['op'], 'result-arg.' + _coarse(d),
+                             f"ARG: {ev['op']} changed the annotation it was given (an earlier result): {d}", ev_i, None):
+                return True
     if exempt:
         # an explicit editor changed a shared object (legitimately): suspended computations and cached objects
         # bound to it may or may not see the edit - the property says nothing, so stop comparing them
@@ -1081,6 +1126,10 @@ def _do_scribble(run, ev_i, ev):
         return False
     out.faults['scribble'] += 1
     del run.results[ev['res']]    # the client edited its own result: it no longer equals a re-computation
+    # ... and a suspended computation that was given this result as its argument may or may not see the edit
+    for lz in run.lazies.values():
+        if any(a.get('ra') == ev['res'] for a in lz['ev']['args'].values()):
+            lz['twin_items'] = None
     if how.endswith('/aimed'):
         out.probes['scribble_on_node_shared_with_argument'] += 1
     return run.check_pool(snaps, 'ALIAS', r['op'], ev_i)
@@ -1181,7 +1230,8 @@ RULE = (f"catalogue of {len(OPS)} ops ({len(OPS) - len(catalog.EDITORS)} queries
         "are also evaluated in a pristine forked process. Distinct = distinct sequence of (event kind | op name); non-trivial "
         "= some shared pool object was passed to at least two calls and at least one oracle comparison ran.")
 EXPECTED_PROBES = ['twin_first', 'call_raised', 'lazy_stepped_across_a_call', 'abandoned_after_first_item',
-                   'explicit_editor_event', 'pristine_process_comparisons', 'reference_from_pristine_process']
+                   'explicit_editor_event', 'pristine_process_comparisons', 'reference_from_pristine_process',
+                   'earlier_result_passed_back_in']
 _NOPS = len(OPS)
 _NQ = len([o for o in OPS.values() if 'editor' not in o.tags])
 _NL = len([o for o in OPS.values() if o.lazy])
